@@ -14,6 +14,22 @@ from concurrent.futures import ThreadPoolExecutor
 from . import common as C, repo as R
 
 FLAGS_AS_IS = "000"      # fixed_P7 fixed_P8 fixed_mv_absent
+
+
+def flags_from_source():
+    """which of the three repairs the working tree of /repo contains (read from the source on every
+    run): the model is run with the matching switches, and the theorems cover both values"""
+    def src(rel):
+        try:
+            return open(os.path.join(C.REPO, rel)).read()
+        except OSError:
+            return ""
+    un, mv = src("file/src/untrack/mod.rs"), src("file/src/mv/mod.rs")
+    p7 = "is_hardlink_to" in un
+    p8 = "symlink_metadata().unwrap()" not in un and "all_content_digests[xe]" not in un
+    m = re.search(r"\(RecheckMethod::Copy, RecheckMethod::Copy\) => \{(.*?)\n                \}", mv, re.S)
+    mva = bool(m and re.search(r"!\s*source_path\.exists\(\)", m.group(1)))
+    return "".join("1" if b else "0" for b in (p7, p8, mva))
 MINE = ("copy", "move", "remove", "untrack")
 
 TRUSTED = [
@@ -405,6 +421,12 @@ def gen_history(rng, focus):
             if cmd in ("copy", "move"):
                 src = some_target((6, 2, 2))
                 dst = dest_for(src)
+                if src in tracked:                                # the three states of a source the property names
+                    st = rng.random()
+                    if st < 0.15:
+                        items.append(("W", src, rng.choice([c for c in CONTENTS if c not in versions.get(src, [])[-1:]])))   # modified
+                    elif st < 0.30:
+                        items.append(("D", src))                  # absent
                 if cmd == "copy":
                     o = {"as": rng.choice(["copy", "hardlink", "symlink"]) if rng.random() < 0.3 else None,
                          "f": rng.random() < 0.25, "nr": rng.random() < 0.2,
@@ -486,6 +508,9 @@ def run_property(chk, replay, focus, oracle, classify_corr, nontrivial, rule, n_
     chk.assumptions += ["ideal hash functions in the model; the oracles compare digests as recorded in the store event logs and re-read every cache object",
                         "edits_visible: user writes get distinct explicit modification times"]
     chk.proof()
+    flags = flags_from_source()
+    chk.cov["model_switches"] = {"fixed_P7": flags[0] == "1", "fixed_P8": flags[1] == "1", "fixed_mv_absent": flags[2] == "1",
+                                 "read_from": "file/src/untrack/mod.rs, file/src/mv/mod.rs of the working tree"}
     model = C.ensure_model("Repoext", ["Base", "Repo", "Glob"])
     xvc = C.ensure_xvc()
     scs = []
@@ -533,7 +558,7 @@ def run_property(chk, replay, focus, oracle, classify_corr, nontrivial, rule, n_
             chk.fail("oracle", what, dict(to_replay(s2), failing_item=j, kind="impl-history", log=[l for l in (s2.log or [])][-3:]), name="oracle")
             reported += 1
             continue
-        mm = correspond(model, sc)
+        mm = correspond(model, sc, flags)
         if mm is None:
             agreed += 1
         elif reported < 3:
